@@ -48,6 +48,7 @@ class C17(Prop):
         # critical sections read off the source (rs2lean/src/holds.rs): which calls are made while which shared cell is held — the policies (P2: the composite tears its children down with its cell released; P6: the handle section)
         "RxModel.GenTie.Holds": [],
         "RxModel.GenTie.Subscription": [],
+        "RxModel.GenTie.PinsCore": [],
         "RxModel.GenTie.Subscriber": [],
         "RxModel.GenTie.SubscriberThreads": [],
         # merge_all: every started inner observable is appended to THE composite the operator returned
